@@ -136,7 +136,7 @@ Proof.
   assert (L : length cs = n - 2).
   { apply in_bounds_length in Hb. now rewrite map_length, seq_length in Hb. }
   unfold uniform_tree.
-  destruct (Nat.ltb_spec n 2); [lia|]. destruct (Nat.ltb_spec n 3); [lia|]. cbn [andb].
+  destruct (Nat.ltb_spec n 3); [lia|]. cbn [andb].
   rewrite L, Nat.eqb_refl. cbn [negb].
   assert (I : inv rooted (2 + length cs) (unif_loop 2 cs (init_state rooted))).
   { apply unif_loop_inv; [lia|apply inv_init|now rewrite L]. }
@@ -154,7 +154,7 @@ Proof.
   assert (L : length cs = n - 2).
   { apply in_bounds_length in Hb. now rewrite seq_length in Hb. }
   unfold yule_tree.
-  destruct (Nat.ltb_spec n 2); [lia|]. destruct (Nat.ltb_spec n 3); [lia|]. cbn [andb].
+  destruct (Nat.ltb_spec n 3); [lia|]. cbn [andb].
   rewrite L, Nat.eqb_refl. cbn [negb].
   destruct (yule_loop_inv rooted cs 2 (init_state rooted)) as [st [E I]];
     [lia|apply inv_init|now rewrite L|].
@@ -168,7 +168,7 @@ Theorem caterpillar_tree_lens n rooted ls t :
   caterpillar_tree n rooted ls = GOk t -> lens_nonneg t = true.
 Proof.
   intros Hn Hl Hnn. unfold caterpillar_tree.
-  destruct (Nat.ltb_spec n 2); [lia|]. destruct (Nat.ltb_spec n 3); [lia|]. cbn [andb].
+  destruct (Nat.ltb_spec n 3); [lia|]. cbn [andb].
   destruct (cat_loop_inv rooted (n - 2) 2 (init_state rooted)) as [st [E I]]; [lia|apply inv_init|].
   rewrite E. replace (2 + (n - 2)) with n in I by lia.
   apply (close_state_lens rooted n); auto.
